@@ -15,6 +15,7 @@ broadcast use str_axioms::axiom_str_eq_is_view_eq;
 verus! {
 //@include units/spec_lookups.inc
 //@include units/spec_lines.inc
+//@include units/spec_destruct.inc
 //@include units/spec_enum.inc
 
 // =====================================================================================================
